@@ -212,7 +212,9 @@ def check_cache_hit_rebinds(prog: Program, res: Result, rule: str) -> None:
                 return False
             for t in nd.targets:
                 if isinstance(t, ast.Attribute) and t.attr == "global_data" and isinstance(t.value, ast.Name) and t.value.id == cached:  # noqa: B023
-                    return "globals" in {x.id for x in ast.walk(nd.value) if isinstance(x, ast.Name)}
+                    names = {x.id for x in ast.walk(nd.value) if isinstance(x, ast.Name)}
+                    # from the caller's globals alone: a fallback to what the cached object already holds keeps an earlier caller's globals
+                    return "globals" in names and cached not in names  # noqa: B023
             return False
 
         for r in hit_returns:
@@ -574,3 +576,92 @@ def check_content_right_trim(prog: Program, res: Result, rule: str) -> None:
         res.ok(rule, f"{cp.file}:{cp.node.lineno} Content.parse", what, f"covers {sorted(covered)}")
     else:
         res.fail(rule, file=cp.file, line=cp.node.lineno, qualname="Content.parse", construct=f"uncovered markup classes {missing}", message=f"text followed by {missing or 'markup'} does not take that markup's left marker as its right trim", what=what)
+
+
+def check_freshness_equality(prog: Program, res: Result, rule: str) -> None:
+    """A file-backed template is fresh iff the modification time recorded when it was loaded EQUALS the file's current one
+    (C14.R3 = C09.R9): `>=` treats a source replaced by an older file (rollback, cp -p, rsync -t) as unchanged."""
+    # freshness of file-backed templates: equality of the recorded and the current mtime
+    n_up = 0
+    for cinfo in prog.subclasses("liquid2.loader.BaseLoader"):
+        for nm, m in cinfo.methods.items():
+            if not nm.startswith("_uptodate"):
+                continue
+            n_up += 1
+            cmps = [c for c in ast.walk(m.node) if isinstance(c, ast.Compare)]
+            what = f"{cinfo.name}.{nm}: fresh iff recorded mtime == current st_mtime"
+            from sa import twins as _tw
+
+            sync_nm = _tw.strip_async_name(nm)
+            if sync_nm != nm and sync_nm in cinfo.methods and _tw.is_default_delegation(m.node, sync_nm):
+                res.ok(rule, f"{m.file}:{m.node.lineno} {cinfo.name}.{nm}", what, f"runs {cinfo.name}.{sync_nm} in an executor with the same arguments")
+                continue
+            # a missing file is stale (the reload then reports it): the only other exit allowed is `return False` in an OSError handler
+            handlers = [h for h in ast.walk(m.node) if isinstance(h, ast.ExceptHandler)]
+            if any(not (norm(h.type) in ("OSError", "FileNotFoundError") and len(h.body) == 1 and isinstance(h.body[0], ast.Return) and isinstance(h.body[0].value, ast.Constant) and h.body[0].value.value is False) for h in handlers):
+                res.fail(rule, file=m.file, line=m.node.lineno, qualname=f"{cinfo.name}.{nm}", construct=f"{nm} swallows an error as fresh", message="the freshness test handles an error by reporting anything other than 'stale': a vanished or unreadable source keeps being served from the cache", what=what)
+                continue
+            if len(cmps) == 1 and len(cmps[0].ops) == 1 and isinstance(cmps[0].ops[0], ast.Eq) and "st_mtime" in norm(cmps[0]) and "mtime" in norm(cmps[0].left):
+                res.ok(rule, f"{m.file}:{m.node.lineno} {cinfo.name}.{nm}", what, norm(cmps[0]))
+            else:
+                res.fail(rule, file=m.file, line=m.node.lineno, qualname=f"{cinfo.name}.{nm}", construct=f"{nm} comparison {[norm(c) for c in cmps]}", message="the freshness test is not an equality of modification times: a source replaced by an older file (rollback, cp -p, rsync -t) is treated as unchanged and the stale template keeps being served", what=what)
+    res.floor(rule, "_uptodate implementations", n_up, 2)
+
+
+def check_parser_trim_threading(prog: Program, res: Result, rule: str) -> None:
+    """Parser.parse and Parser.parse_block thread the trim carry identically (C18.R3 = C01.R10): same arms; a markup arm takes
+    left_trim from the LAST marker of the token (`wc[-1]`: a raw token has four); text resets it; the tag arm stores the carry
+    before dispatch and reads it after."""
+    parser = prog.cls("liquid2.parser.Parser")
+    pa, pb = parser.methods.get("parse"), parser.methods.get("parse_block")
+    if pa is None or pb is None:
+        raise AnalysisError("Parser.parse / parse_block vanished")
+
+    def arms(fn: ast.FunctionDef) -> dict[str, list[str]]:
+        loop = next((n for n in ast.walk(fn) if isinstance(n, ast.While)), None)
+        if loop is None:
+            raise AnalysisError(f"no loop in {fn.name}")
+        out: dict[str, list[str]] = {}
+        node: ast.AST | None = next((s for s in loop.body if isinstance(s, ast.If)), None)
+        while isinstance(node, ast.If):
+            body = [norm(s, 300) for s in node.body if not (isinstance(s, ast.If) and "in end" in norm(s.test))]
+            out[norm(node.test)] = body
+            node = node.orelse[0] if len(node.orelse) == 1 and isinstance(node.orelse[0], ast.If) else None
+        tail = [norm(s, 300) for s in loop.body if not isinstance(s, ast.If)]
+        out["<loop tail>"] = tail
+        return out
+
+    aa, ab = arms(pa.node), arms(pb.node)
+    for key in sorted(set(aa) | set(ab)):
+        what = f"arm `{key}` identical in parse and parse_block"
+        if aa.get(key) == ab.get(key):
+            res.ok(rule, f"{parser.file}:{pa.node.lineno} Parser.parse/parse_block", what, "; ".join(aa[key])[:120])
+        else:
+            res.fail(rule, file=parser.file, line=pb.node.lineno, qualname="Parser.parse_block", construct=f"arm {key}: parse={aa.get(key)} parse_block={ab.get(key)}", message=f"the two parser loops disagree in arm `{key}`: text inside a block is trimmed differently from top-level text", what=what)
+    # arm contents
+    for fn, arm in ((pa, aa), (pb, ab)):
+        for key, body in arm.items():
+            if key == "<loop tail>" or "EOI" in key:
+                continue
+            what = f"{fn.name}: arm `{key}` threads the carry"
+            if "is_content_token" in key:
+                # after text only more text can follow without setting the carry: nothing is trimmed between two pieces of text
+                ok = any("left_trim=left_trim" in s for s in body) and "left_trim = WhitespaceControl.PLUS" in body
+            elif "is_tag_token" in key:
+                ok = body and body[0] == "stream.trim_carry = token.wc[-1]" and body[-1] == "left_trim = stream.trim_carry"
+            elif key.startswith("is_"):
+                ok = "left_trim = token.wc[-1]" in body
+            else:
+                continue
+            if ok:
+                res.ok(rule, f"{parser.file}:{fn.node.lineno} Parser.{fn.name}", what, "; ".join(body)[:100])
+            else:
+                res.fail(rule, file=parser.file, line=fn.node.lineno, qualname=f"Parser.{fn.name}", construct=f"{fn.name} arm {key}: {body}", message=f"arm `{key}` does not hand the right-hand marker of this markup to the next text", what=what)
+    # initial left trim
+    what = "parse starts from env.default_trim, parse_block from stream.trim_carry"
+    ia = [norm(s) for s in pa.node.body if isinstance(s, ast.Assign) and norm(s.targets[0]) == "left_trim"]
+    ib = [norm(s) for s in pb.node.body if isinstance(s, ast.Assign) and norm(s.targets[0]) == "left_trim"]
+    if len(ia) == 1 and ia[0].endswith("default_trim") and ib == ["left_trim = stream.trim_carry"]:
+        res.ok(rule, f"{parser.file}:{pa.node.lineno} Parser", what, "declared difference only")
+    else:
+        res.fail(rule, file=parser.file, line=pb.node.lineno, qualname="Parser.parse_block", construct=f"initial left_trim parse={ia} parse_block={ib}", message="the first text of a block does not take its left trim from the tag that opened the block", what=what)
